@@ -19,6 +19,7 @@ type appCase struct {
 	Chunk   int    `json:"chunk"`
 	Seed    int64  `json:"seed"`
 	Cls     string `json:"cls"`
+	EOFWith bool   `json:"eof_with_data"`
 }
 
 func appCases(args []string) {
@@ -75,7 +76,7 @@ func appCases(args []string) {
 			}
 			for _, h := range holds {
 				id++
-				w.Emit(appCase{ID: id, Mode: "c11", In: tr.Ints(in), Hold: h, Chunk: []int{0, 1, 7, 4096}[rng.Intn(4)], Seed: rng.Int63(), Cls: "c11"})
+				w.Emit(appCase{ID: id, Mode: "c11", In: tr.Ints(in), Hold: h, Chunk: []int{0, 1, 7, 4096}[rng.Intn(4)], Seed: rng.Int63(), Cls: "c11", EOFWith: id%4 == 0})
 			}
 		}
 	case "c10":
@@ -122,7 +123,8 @@ func appCases(args []string) {
 				in, cls = gen.Cat(gen.Garbage(rng, rng.Intn(30)), wellStructured(rng, 1+rng.Intn(6), 80, i), gen.Garbage(rng, rng.Intn(30))), "mixed"
 			}
 			id++
-			w.Emit(appCase{ID: id, Mode: "c10", In: tr.Ints(in), Display: i%4 >= 2, Record: i%2 == 1, Chunk: []int{0, 1, 5, 64, 4096}[rng.Intn(5)], Seed: rng.Int63(), Cls: cls})
+			w.Emit(appCase{ID: id, Mode: "c10", In: tr.Ints(in), Display: i%4 >= 2, Record: i%2 == 1, Chunk: []int{0, 1, 5, 64, 4096}[rng.Intn(5)], Seed: rng.Int63(), Cls: cls,
+				EOFWith: i%3 == 0}) // a third of the readers report end of file together with the last chunk
 		}
 	}
 }
